@@ -8,8 +8,15 @@ PROP = dict(
             # outcome tables of the code as it is, one CASE per (request path, protection variant)
             dict(module="Protect", cfg=dict(quick="ProtectEmit_quick.cfg", thorough="ProtectEmit_thorough.cfg"), emit=True,
                  workers=16, timeout=dict(quick=300, thorough=2400)),
+            # extension (notes/InternalRedirect.md): internal's X-Accel-Redirect loop and basicauth rule lists, step by step;
+            # the invariants are checked and one CASE per terminal state is emitted in the same run
+            dict(module="InternalRedirect", cfg=dict(quick="InternalRedirect_quick.cfg", thorough="InternalRedirect_thorough.cfg"), emit=True,
+                 workers=8, coverage=True, timeout=dict(quick=300, thorough=900)),
+            dict(module="AuthRules", cfg=dict(quick="AuthRules_quick.cfg", thorough="AuthRules_thorough.cfg"), emit=True,
+                 workers=8, coverage=True, timeout=dict(quick=300, thorough=900)),
         ],
-        go=[dict(pkg="c03", test="TestC03", timeout=dict(quick=600, thorough=3000))],
+        go=[dict(pkg="c03", test="TestC03", timeout=dict(quick=600, thorough=3000)),
+            dict(pkg="cx03internal", test="TestCx03Internal", timeout=dict(quick=300, thorough=1200))],
         exhaustive=dict(quick=False, thorough=False),
         technique="TLA+ spec Protect.tla (EXTENDS FileServe, PathMatch, CleanPath) model-checked by TLC; outcome tables replayed against 168 real casket sites serving a token-marked tree",
         level_text="TLC checks exhaustively (7 protection variants x 24 directive shapes x request paths of <=L segments over 11 spellings x slash x archive query x Accept-Encoding x credentials) that the stepwise model of tryfiles -> rewrite -> ext -> basicauth/internal -> browse -> file server never serves a file of the declarative Protected set without valid credentials and serves authorised requests like the unprotected twin site. The outcome tables are replayed against real sites (casket.Start, raw HTTP/1.1, percent-encoded spellings, four kinds of bad credentials, GET/HEAD/POST); bodies are gunzipped/unzipped and searched for the per-file tokens; authorised responses are compared with the twin site's. Bounded model checking plus conformance replay.",
